@@ -121,7 +121,7 @@ func checkRequired(c reqCase) error {
 	return nil
 }
 
-var cycleTypes = registerCycle()
+var cycleTypes = append(registerCycle(), registerMany()...)
 
 var reqTypes = func() []string {
 	out := corpus.RequiredBearing()
@@ -177,13 +177,20 @@ func TestRequired(t *testing.T) {
 	mo.Depth = 4
 	pbt.Run(t, pbt.Prop[reqCase]{
 		Name: "required",
-		Rule: "types: every linked type from which a required field is reachable, plus a hand-written struct-tag schema in which the required field is reachable only through a cycle of the message graph (A{B,C}, B{A}, C{required}); content from the descriptor-directed generator with each required field omitted with probability 1/5 at every depth (valid UTF-8 so that JSON/text can represent it). non-trivial = a required field missing at depth >= 2, or a fully initialised tree of depth >= 3",
+		Rule: "types: every linked type from which a required field is reachable, plus a hand-written struct-tag schema in which the required field is reachable only through a cycle of the message graph (A{B,C}, B{A}, C{required}) and one with 70 required fields; content from the descriptor-directed generator with each required field omitted with probability 1/5 at every depth (valid UTF-8 so that JSON/text can represent it). non-trivial = a required field missing at depth >= 2, or a fully initialised tree of depth >= 3",
 		Draw: func(t *rapid.T) reqCase {
 			if rapid.IntRange(0, 11).Draw(t, "cycle-types") == 0 {
 				// the hand-written cyclic schema (cycle_test.go): a fixed share, deeper content
 				cm := mo
 				cm.Depth = 6
-				return reqCase{Case: mcase.Draw(t, cycleTypes, cycleTypes, cm, model.AllPerturbations), Lazy: rapid.Bool().Draw(t, "lazy")}
+				pool := cycleTypes[:2]
+				if rapid.Bool().Draw(t, "many-required") {
+					// 70 required fields (many_test.go): omit rarely, so that often only a field beyond
+					// the 64th is missing
+					pool = cycleTypes[2:]
+					cm.RequiredOmit = 80
+				}
+				return reqCase{Case: mcase.Draw(t, pool, pool, cm, model.AllPerturbations), Lazy: rapid.Bool().Draw(t, "lazy")}
 			}
 			return reqCase{Case: mcase.Draw(t, reqTypes, reqTypes, mo, model.AllPerturbations), Lazy: rapid.Bool().Draw(t, "lazy")}
 		},
